@@ -1,7 +1,44 @@
-//! Lane `timeouts` (stub).
+//! Lane `timeouts` (C12, also C13): timed operations on a paused clock.
 use crate::out::Out;
 use crate::rng::Rng;
+use crate::scen::*;
 
-pub fn run(_thorough: bool, _rng: Rng, out: Out) {
-    out.finish("stub lane: nothing generated yet");
+/// F15 witness: a request that times out while it is still waiting in the op queue (the driver is
+/// blocked in a socket write); afterwards the scrub and the request are both ready for `select!`.
+pub fn f15_script() -> Vec<Step> {
+    vec![
+        Step::StallWrites(true),
+        Step::Issue { kind: OpKind::Single, tmo_ms: None }, // op 0 (id 1): the driver blocks writing it
+        Step::Settle,
+        Step::Issue { kind: OpKind::Single, tmo_ms: Some(1) }, // op 1 (id 2): waits in the queue
+        Step::Settle,
+        Step::Tick(2), // op 1 times out: scrub(2) queued
+        Step::Settle,
+        Step::StallWrites(false), // driver resumes: scrub arm and op arm are both ready
+        Step::Settle,
+        Step::Send { id: 1, op: 11, good: true },
+        Step::Settle,
+        Step::Table,
+    ]
+}
+
+pub fn run(thorough: bool, _rng: Rng, mut out: Out) {
+    let n = if thorough { 400 } else { 60 };
+    let mut leaked = 0;
+    for k in 0..n {
+        let o = run_script(&f15_script());
+        let ev = to_model_events(&o.trace);
+        out.case(&format!("{} #{}", ev, k), true);
+        out.m(&format!("conn.trace {}", ev), "accept");
+        // quiescent at the end: both callers have their answer, queues drained
+        let last_maps = o.trace.iter().rev().find(|t| t.starts_with("drv maps")).cloned().unwrap_or_default();
+        let tbl = o.trace.iter().rev().find(|t| t.starts_with("tbl")).cloned().unwrap_or_default();
+        let clean = last_maps == "drv maps r=[] s=[]" && tbl.ends_with("[]");
+        if !clean {
+            leaked += 1;
+        }
+        out.r("leaks.scrub-overtakes-request quiescent ⇒ no routing state, no reserved ID", clean, &format!("{} | {} | {}", last_maps, tbl, ev));
+    }
+    out.stat_n("f15.leaked-runs", leaked);
+    out.finish("timeout scripts on the paused clock; non-trivial = all");
 }
